@@ -12,11 +12,13 @@
 //! usage:  c13 gen <seed> <n> [start]       generated modules
 //!         c13 corpus <seed> <file.wasm>... repository modules
 //!         c13 engine <seed> <n>            end to end through the v1 engine
+//!         c13 imports                      per host function: ImportFunc tag round trip, stored-vs-fresh getters
 //!         c13 overlong                     is an over-long LEB128 accepted by parse_artifact? (observation)
 mod ast;
 mod classify;
 mod engine;
 mod gen;
+mod imports;
 use ast::*;
 use concordium_wasm::{
     artifact::{Artifact, ArtifactNamedImport, CompiledFunction, CompiledFunctionBytes, OwnedArtifact, RunnableCode, StackValue},
@@ -660,6 +662,7 @@ fn main() {
             let n: u64 = a[3].parse().unwrap();
             engine::run(seed, n);
         }
+        "imports" => imports::run_all(),
         "classify" => {
             let seed: u64 = a[2].parse().unwrap();
             let n: u64 = a[3].parse().unwrap();
